@@ -22,7 +22,7 @@ from io import BytesIO
 import pyarrow as pa
 from pyarrow import ipc
 
-from engine.api import HarnessModelError, cond, pick
+from engine.api import QUICK, HarnessModelError, cond, pick
 from engine.reglob import reglobalize
 
 from vgi_rpc import metadata as md
@@ -489,7 +489,7 @@ class _MemTransport:
 
 def _site_run(ci: int, msg: str, site: int, real: bool):  # type: ignore[no-untyped-def]
     """Returns (exc, data batches seen, logs seen, RpcError | None)."""
-    exc = _CLASSES[ci](msg)
+    exc = _SITE_CLASSES[ci](msg)
     _S["exc"] = exc
     _S["site"] = site
     _S["step"] = 0
@@ -521,7 +521,7 @@ def _site_ok(ci: int, msg: str, site: int, real: bool) -> bool:
         exc, data, logs, err = _site_run(ci, msg, site, real)
     except Exception:  # noqa: BLE001
         return False
-    if not _faithful(ci, exc, err):
+    if err is None or err.error_type != _SITE_NAMES_CLS[ci] or str(exc) not in err.error_message:
         return False
     if err.request_id is None or not isinstance(err.remote_traceback, str):
         return False
@@ -531,22 +531,46 @@ def _site_ok(ci: int, msg: str, site: int, real: bool) -> bool:
 
 
 def _replay_site(args: dict) -> str | None:
-    ok = _site_ok(args["ci"], _MESSAGES[args["mi"]], args["site"], real=True)
-    return None if ok else "error raised by the implementation (class %s, site %d) did not reach the client as a faithful RpcError" % (_NAMES[args["ci"]], args["site"])
+    ok = _site_ok(args["ci"], _MESSAGES[1 if QUICK else args["mi"]], args["site"], real=True)
+    return None if ok else "error raised by the implementation (class %s, site %d) did not reach the client as a faithful RpcError" % (_SITE_NAMES_CLS[args["ci"]], args["site"])
 
 
-_MI = pick(1, 3)
+_MI = pick(0, 3)
+
+
+class SubTypeError(TypeError):
+    """User-defined TypeError subclass."""
+
+
+# every class the serve loops name in an except / suppress clause (a method raising one of them must
+# still be *reported*, not mistaken for a transport failure, end of stream or a bad request), their
+# siblings, and the 12 classes of the kernel items
+_SITE_CLASSES = _CLASSES + (
+    BrokenPipeError,
+    ConnectionResetError,
+    ConnectionAbortedError,
+    ConnectionRefusedError,
+    OSError,
+    FileNotFoundError,
+    TimeoutError,
+    EOFError,
+    StopIteration,
+    pa.ArrowInvalid,
+    KeyError,
+    SubTypeError,
+)
+_SITE_NAMES_CLS = tuple(c.__name__ for c in _SITE_CLASSES)
 
 
 @cond(q=100, t=300, encoded=[srv.RpcServer._serve_unary, srv.RpcServer._serve_stream] + ENCODED, replay=_replay_site,
       stubs=["time.monotonic := concrete counter (access-log duration only)"], signature=lambda a, c: "C07:dispatch-site:error-not-faithful",
-      bound="12 exception classes x %d concrete messages x 4 socket dispatch sites (unary, stream init, first process step, later step after a log and a data batch); real pyarrow and json" % (_MI + 1))
+      bound="24 exception classes (the 12 kernel classes + OSError and its connection subclasses, TimeoutError, EOFError, StopIteration, ArrowInvalid, KeyError, a TypeError subclass) x %d concrete messages x 4 socket dispatch sites (unary, stream init, first process step, later step after a log and a data batch); real pyarrow and json" % (_MI + 1))
 def error_at_dispatch_sites(ci: int, mi: int, site: int) -> bool:
     """
-    pre: 0 <= ci <= 11 and 0 <= mi <= _MI and 0 <= site <= 3
+    pre: 0 <= ci < len(_SITE_CLASSES) and 0 <= mi <= _MI and 0 <= site <= 3
     post: _
     """
-    return _site_ok(_concrete(ci, len(_CLASSES)), _MESSAGES[_concrete(mi, 5)], _concrete(site, 4), real=False)
+    return _site_ok(_concrete(ci, len(_SITE_CLASSES)), _MESSAGES[1 if QUICK else _concrete(mi, 5)], _concrete(site, 4), real=False)
 
 
 # ---------------------------------------------------------------------------
@@ -577,8 +601,10 @@ _HTTP_CLASSES_QUICK = (
     common.VersionError,
     common.ProtocolVersionError,
     common.MethodNotImplementedError,
+    BrokenPipeError,
+    ConnectionResetError,
 )
-_HTTP_CLASSES = pick(_HTTP_CLASSES_QUICK, _HTTP_CLASSES_QUICK + (RuntimeError, LookupFailed, KindedAppError, common.SessionLostError, common.ServerDrainingError, ZeroDivisionError))
+_HTTP_CLASSES = pick(_HTTP_CLASSES_QUICK, _HTTP_CLASSES_QUICK + (RuntimeError, LookupFailed, KindedAppError, common.SessionLostError, common.ServerDrainingError, ZeroDivisionError, OSError, TimeoutError, EOFError))
 _H_UNARY, _H_INIT, _H_PRODUCE_FIRST, _H_PRODUCE_LATER, _H_EXCHANGE_FIRST, _H_EXCHANGE_LATER = 0, 1, 2, 3, 4, 5
 _IN_SCHEMA = pa.schema([pa.field("x", pa.int64())])
 _IN_BATCH = pa.RecordBatch.from_pydict({"x": [1]}, schema=_IN_SCHEMA)
